@@ -230,6 +230,7 @@ func runC23(c *Ctx) {
 		c.undecided(P, "wt", "handlers", "", "WRITE/FSINFO handler missing")
 		return
 	}
+	runC23CountRaw(c, hw)
 	fl := newFlow(p)
 	// refusing bounds on the wire count in handleWrite
 	type bound struct {
@@ -248,7 +249,7 @@ func runC23(c *Ctx) {
 			continue
 		}
 		cntWire := hasOrigin(fl.Origins(bo.X), func(o Origin) bool { return o.Kind == "outparam" && strings.Contains(o.Desc, "binary.Read") })
-		if !cntWire || !rejectEdgeOK(p, b.Succs[0], false) {
+		if !cntWire || !rejectEdgeFrom(p, b, b.Succs[0],false) {
 			continue
 		}
 		// the rejected operand must be the count (32-bit), not the offset overflow test
